@@ -144,6 +144,7 @@ pub fn lib_spec(r: &mut Rng, variety: bool, idx: usize) -> ElfSpec {
         dyn_pad: r.below(3) as u32,
         with_pt_phdr: r.coin(),
         sections_at_end: false,
+        rodata_before_text: false,
     };
     if variety {
         match r.below(8) {
@@ -156,6 +157,12 @@ pub fn lib_spec(r: &mut Rng, variety: bool, idx: usize) -> ElfSpec {
             4 => {
                 let n = r.pick_copy(&[8usize, 16, 20, 32]);
                 s.build_id = Some(r.bytes(n));
+            }
+            5 => {
+                // no note at all: the id is the fold of the first executable section, which is not
+                // the first allocated PROGBITS section
+                s.build_id = None;
+                s.rodata_before_text = true;
             }
             _ => {}
         }
@@ -195,6 +202,7 @@ pub fn build_world(r: &mut Rng, cfg: &WorldCfg) -> Built {
         dyn_pad: 0,
         with_pt_phdr: true,
         sections_at_end: false,
+        rodata_before_text: false,
     };
     let exe = elfgen::build(&exe_spec);
     if cfg.link_map {
@@ -391,6 +399,7 @@ pub fn build_world(r: &mut Rng, cfg: &WorldCfg) -> Built {
             dyn_pad: 0,
             with_pt_phdr: false,
             sections_at_end: false,
+        rodata_before_text: false,
         };
         let img = elfgen::build(&spec);
         regions.push(RegionSpec {
